@@ -81,6 +81,8 @@ struct syslock_save_pair system_lock_save()
     {
         mtx.unlock();
     }
+    // the loop leaves count at -1; the lock is free now, so the depth is 0
+    count = 0;
 
     return ret;
 }
